@@ -359,6 +359,8 @@ func Apply(t *Tree, f Fault, altSrc []byte) *Tree {
 
 // prune keeps the tree realisable: an entry below a path that is a regular file or a symlink
 // is shadowed and removed; a path is at most one of file / link / directory.
+func (t *Tree) Prune() { t.prune() }
+
 func (t *Tree) prune() {
 	shadow := func(p string) bool {
 		for d := filepath.Dir(p); d != "." && d != "/"; d = filepath.Dir(d) {
